@@ -90,7 +90,63 @@ def _guard_sources(srv):
                                      desc="Server::start sizes the connection semaphore by server_cfg.max_connections (zero-extended, no arithmetic)", bounds="all u32 values of every configuration field",
                                      keydetail="source!=max_connections", max_paths=6000))
     out.append(_setter_kernel(srv))
+    out.append(_to_service_builder_kernel(srv))
+    out.append(_no_wait_unless_stopping(srv))
     return out
+
+
+def _no_wait_unless_stopping(srv):
+    """ws::graceful_shutdown: only a *stopping* server waits for the connection's running calls; a connection that ended for any other reason (peer closed, error,
+    inactivity) goes straight to closing the writer - so its slot is released without waiting for handlers that may run for ever"""
+    from . import C10
+    col = {}
+    b, viol, reach, bad = C10._graceful_shutdown(srv, collect=col)
+    q = col.get("waited_not_stopping", [])
+    rc = col.get("reach", [])
+    if bad or not rc:
+        return R.Result(engine="mirsym", name="order:ws::graceful_shutdown:no-wait-unless-stopping", kind="order", status="unsupported" if bad else "vacuous", detail=str(bad[:1])[:300], bodies=[b.name])
+    return R.decide("order:ws::graceful_shutdown:no-wait-unless-stopping", "order", z3.Or(*q) if q else z3.BoolVal(False), [z3.Or(*rc)], bodies=[b.name],
+                    desc="the wait for the connection's running calls (or for the peer to go away) happens only when the server is stopping; a connection that ended for any other reason "
+                         "is wound up at once, so its slot is free again however long its handlers keep running",
+                    bounds="every outcome of the receive loop (stopped / closed / any error); every readiness of the waits", keydetail="ws-wait-when-not-stopping",
+                    replay=dict(scenario="c11_inactive_peer", vars={}, fixed={}, region=z3.BoolVal(True)))
+
+
+def _to_service_builder_kernel(srv):
+    """Builder::to_service_builder(): the service builder it returns carries a connection guard with exactly server_cfg.max_connections slots"""
+    b = R.find_body(srv, r"^fn server::<impl at server/src/server\.rs:[\d: ]+>::to_service_builder\(_1: server::Builder<HttpMiddleware, RpcMiddleware>\)")
+    t = R.source_tables()
+    ctx = Ctx(srv, consts=t["consts"], enums=t["enums"], models=C06.C06_MODELS + MM.ARC_MODELS + list(SQ.TRY_MODELS) + list(M.INT_MODELS) + P.COMMON_MODELS, inline=[M.crate_inliner(srv)], max_paths=200)
+    ex = Executor(ctx)
+    fi_cfg, fi_mc = R.field_index("Builder", "server_cfg"), R.field_index("ServerConfig", "max_connections")
+    limit = z3.BitVec(f"arg1.{fi_cfg}.{fi_mc}", 32)
+    fi_guard = R.field_index("TowerServiceBuilder", "conn_guard")
+    fi_inner, fi_max = R.field_index("ConnectionGuard", "inner"), R.field_index("ConnectionGuard", "max")
+    viol, reach, bad = [], [], []
+    for p in ex.run(b):
+        if p.kind != "return":
+            bad.append((p.kind, p.detail))
+            continue
+        reach.append(p.cond())
+        g = ex.read_node(p.ret.kids[fi_guard]) if isinstance(p.ret, Node) and fi_guard in p.ret.kids else None
+        arc = MM.arc_node(ex, ex.read_node(g.kids[fi_inner])) if isinstance(g, Node) and fi_inner in g.kids else None
+        if arc is None:
+            viol.append(p.cond())
+            continue
+        sem = arc.kids["ptr"].val.node.kids["v"]
+        avail = ex.read_node(sem.kids["avail"]) if "avail" in sem.kids else None
+        mx = ex.read_node(g.kids[fi_max])
+        if avail is None:
+            viol.append(p.cond())
+            continue
+        viol.append(z3.And(p.cond(), z3.Or(avail != z3.ZeroExt(32, limit), mx != z3.ZeroExt(32, limit))))
+    reach_l = R.live_reach(viol, reach, bad)
+    if bad or not reach_l[0]:
+        return R.Result(engine="mirsym", name="kernel:Builder::to_service_builder", kind="kernel", status="unsupported" if bad else "vacuous", detail=str(bad[:1])[:300], bodies=[b.name])
+    q = [v if isinstance(v, z3.ExprRef) else z3.BoolVal(bool(v)) for v in viol]
+    return R.decide("kernel:Builder::to_service_builder:guard-has-configured-slots", "kernel", z3.Or(*q), [z3.Or(*reach_l[0])], bodies=[b.name],
+                    desc="Builder::to_service_builder() returns a service builder whose connection guard has exactly server_cfg.max_connections slots (the configured limit, not a default)",
+                    bounds="all u32 limits", keydetail="service-builder-guard", replay=dict(scenario="c11_limits", vars={}, fixed={"limit": 2, "entry": "service_builder_from_config"}, region=z3.BoolVal(True)))
 
 
 def _setter_kernel(srv):
